@@ -6,13 +6,15 @@
 // case file format (whitespace separated):
 //   image <fmt:ppm|pgm|pf|pf3|pf3a|pf4> <w> <h> <outfile> <hex bytes of the pixels>
 //   bigimage <fmt> <w> <h> <outfile> <base> <mul>      pixel data = 32-bit words base + i*mul (made here: too big for hex)
+//   images2 <fmt> <w> <h> <outprefix> <k> <rounds> <base> <mul>   k threads write k images concurrently
 //   tracesteer <outprefix> <S> <window> <pattern>      steer the size of the saved log towards S bytes, then save after
 //                                                      EVERY further event until the log is larger than S + window
-//   trace <outfile> <processNameIndex or -1> <mainThreadRecords:0|1> <nthreads> <globalLocale: 0 classic, 1 en-like, 2 de-like>
+//   trace <outfile> <processNameIndex or -1> <mainThreadRecords:0|1> <nthreads> <globalLocale: 0 classic, 1 en-like, 2 de-like> <saveFromAtexitHandler: 0|1>
 //     then per thread:  thread <nameIndex or -1> <nevents>  followed by nevents events:
 //       B <name> <cat|-1> | E | I <name> <cat|-1> | C <name> <value> | M
 //   (names / categories / thread and process names are indices into fixed tables: the recorder caches
 //    strings by POINTER, so - as in real use - every distinct name must live at a stable distinct address)
+#include <atomic>
 #include <cstdio>
 #include <cstdlib>
 #include <cstring>
@@ -34,6 +36,9 @@ static const char *NAMES[] = {"render", "frame", "commit", "load.scene", "a", "B
 static const char *CATS[] = {"rk", "app", "io", "c3"};
 static const char *TNAMES[] = {"worker-0", "worker-1", "io thread", "main", "t4", "t5", "t6", "t7", "t8"};
 static const char *PNAMES[] = {"proc", "my process", "p2"};
+
+static std::string g_exitOut;
+static const char *g_exitName = nullptr;
 
 struct Ev
 {
@@ -148,6 +153,40 @@ int main(int argc, char **argv)
     free(block);
     return r;
   }
+  if (what == "images2") {
+    // k threads write k different images of the same format at the same time (each to its own file, several rounds)
+    std::string fmt, prefix;
+    long long w, h;
+    int k, rounds;
+    unsigned long long base, mul;
+    in >> fmt >> w >> h >> prefix >> k >> rounds >> base >> mul;
+    const size_t pix = fmt == "ppm" || fmt == "pgm" ? 4 : fmt == "pf" ? 4 : fmt == "pf3" ? 12 : 16;
+    const size_t n = (size_t)w * (size_t)h * pix;
+    std::vector<uint32_t *> blocks;
+    for (int t = 0; t < k; ++t) {
+      uint32_t *b = (uint32_t *)malloc(n);
+      for (size_t i = 0; i < n / 4; ++i)
+        b[i] = (uint32_t)(base + (unsigned long long)t * 977u + i * mul);
+      blocks.push_back(b);
+    }
+    std::atomic<int> ready{0};
+    std::atomic<int> bad{0};
+    std::vector<std::thread> th;
+    for (int t = 0; t < k; ++t)
+      th.emplace_back([&, t] {
+        ready++;
+        while (ready.load() < k) {
+        }
+        for (int r = 0; r < rounds; ++r)
+          if (writeAny(fmt, prefix + "." + std::to_string(t), (int)w, (int)h, (const unsigned char *)blocks[(size_t)t]) != 0)
+            bad++;
+      });
+    for (auto &x : th)
+      x.join();
+    for (auto *b : blocks)
+      free(b);
+    return bad.load() ? 2 : 0;
+  }
   if (what == "tracesteer") {
     std::string prefix;
     long long S, window;
@@ -205,8 +244,15 @@ int main(int argc, char **argv)
   }
   if (what == "trace") {
     std::string out;
-    int pname, mainRecords, nthreads, loc = 0;
-    in >> out >> pname >> mainRecords >> nthreads >> loc;
+    int pname, mainRecords, nthreads, loc = 0, atExit = 0;
+    in >> out >> pname >> mainRecords >> nthreads >> loc >> atExit;
+    if (atExit) {
+      // the application saves its trace from an atexit handler registered at the very top of main(), before anything was
+      // traced: the recorder must still be there when the handler runs
+      g_exitOut = out;
+      g_exitName = pname >= 0 ? PNAMES[pname] : nullptr;
+      atexit([] { rkcommon::tracing::saveLog(g_exitOut.c_str(), g_exitName); });
+    }
     if (loc) {
       // the application has installed a global C++ locale with digit grouping and a decimal comma (what
       // std::locale::global(std::locale("")) gives under de_DE / en_US); a JSON writer must not pick it up
@@ -265,7 +311,8 @@ int main(int argc, char **argv)
       });
     for (auto &x : th)
       x.join();
-    tracing::saveLog(out.c_str(), pname >= 0 ? PNAMES[pname] : nullptr);
+    if (!atExit)
+      tracing::saveLog(out.c_str(), pname >= 0 ? PNAMES[pname] : nullptr);
     std::ofstream meta(out + ".meta");
     for (int t = 0; t < nthreads; ++t)
       meta << t << "\t" << ident[(size_t)t] << "\n";
